@@ -105,6 +105,10 @@ func (w *World) Options(dir string) *NoKV.Options {
 func (w *World) Open(dir string) (err error) {
 	verifhook.Reset()
 	verifhook.Set("lsm.no-background-compaction", 1)
+	// Memtable arenas are 128 MiB by default and are cleared on allocation; the
+	// arena is chunked and grows on demand, so a 1 MiB arena only makes runs
+	// ~30x cheaper (knob 0 keeps the shipped size).
+	verifhook.Set("lsm.arena-size", int(w.C.CfgInt("arena_size", 1<<20)))
 	w.Sched = sim.NewSched(sim.NewRand(w.C.Seed, w.C.Run, 1), w.C.Sched, nil)
 	if !w.ModeC {
 		w.Sched.Ignore = func(site string) bool { return site != "lsm.flush.next" }
@@ -202,8 +206,15 @@ func (w *World) Maint(op sim.Op) bool {
 		}
 		synctest.Wait()
 	case "gc":
-		files, _ := db.VerifVlogFiles()
+		all, active := db.VerifVlogFiles()
+		files := all[:0:0]
+		for _, f := range all {
+			if int(f.Bucket) < len(active) && f.FileID < active[f.Bucket] {
+				files = append(files, f)
+			}
+		}
 		if len(files) == 0 {
+			w.Res.Probes["gc_no_sealed_file"]++
 			break
 		}
 		sort.Slice(files, func(i, j int) bool {
@@ -305,6 +316,7 @@ func GenCfg(r *sim.Rand) map[string]int64 {
 		"ingest_batch":    r.Pick64(1, 4),
 		"manifest_rewrite": r.Pick64(256, 2048, 64<<20),
 		"batch_wait_us":   r.Pick64(0, 200),
+		"arena_size":      r.Pick64(1<<20, 1<<20, 1<<20, 1<<20, 1<<20, 1<<20, 1<<20, 1<<20, 1<<20, 2<<20, 0),
 	}
 }
 
